@@ -525,6 +525,10 @@ func (p c09) RunBatch(c *fw.Ctx) {
 	// (2) wall-clock children
 	dir := Scratch("c09")
 	defer os.RemoveAll(dir)
+	// (3) the guards as configured through the flags of the grol command (one batch builds and drives it)
+	if c.Batch == c.NBatches-1 {
+		p.runCliAll(c, dir)
+	}
 	tpls := c09Templates()
 	depths := []int{10, 100, 10000, 0}
 	durs := []int{1, 3, 10, 30, 100, 300, 1000}
@@ -592,6 +596,10 @@ func (p c09) ReplayCase(c *fw.Ctx, input json.RawMessage) {
 	}
 	dir := Scratch("c09r")
 	defer os.RemoveAll(dir)
+	if cs.Kind == "cli" {
+		p.replayCli(c, cs, dir)
+		return
+	}
 	for _, t := range c09Templates() {
 		if t.name == cs.Src {
 			c.Eval(1)
